@@ -275,6 +275,15 @@ void c07x_run(Tape& t, Ctx& ctx, Opt& opt, const TM& tm, const SM* sm, const Pro
   }
   RefSpline::Adjoint ad = ref.adjoint(gC, gT);
   RefSpline::Adjoint ab = ref.adjoint(aC, aT);   // condition-aware scale from the absolute partials
+  if (rho_eff > 0) {  // energy at rounding level (e.g. straight-line data): data-based natural magnitude of its gradient
+    std::vector<ld> dn; ld dt_, Tmax;
+    energy_nat(sc, dn, dt_, &Tmax);
+    for (int d = 0; d < D; ++d) {
+      for (int r = 0; r <= N; ++r) ab.theta_nat(r, d) += (ld)rho_eff * dn[d];
+      for (int m = 1; m < S; ++m) { ab.theta_nat(N + m, d) += (ld)rho_eff * dn[d] * RefSpline::ipow(Tmax, m); ab.theta_nat(N + (S - 1) + m, d) += (ld)rho_eff * dn[d] * RefSpline::ipow(Tmax, m); }
+    }
+    for (int i = 0; i < N; ++i) ab.times_nat(i) += (ld)rho_eff * dt_;
+  }
   const ld tau = 1e-7L;
   const ld tz = S == 2 ? 1e-12L : (S == 3 ? 1e-11L : 1e-10L);
   // lib entry vs reference entry with an allowance; `allow` already contains tau*sigma + structural-zero floor of the physical quantity,
